@@ -38,48 +38,89 @@ BASELINE_OFF = (
 )
 
 
+CLAIMED = {
+    "C01": dict(
+        text="Seeded exploration (deterministic simulation): every linear stepper class, in every program form of the workload (construct, eager, jit, vmap, rollout, RepeatedStepper, grad, jvp, construct-inside-jit, one object shared by all callers), is executed inside simulated runs -- 1-4 baton-passed caller threads pre-empted at source lines of exponax, seeded operation histories, ambient faults (clock jumps, global-RNG reseeds, gc, allocation churn, JAX/equinox cache eviction, precision-session switches, injected crashes with retry) -- and every completed call must equal, to rounding, the same call evaluated alone in a fresh interpreter. C01 demands the exact solution to rounding for every call, so two different answers for identical arguments violate it. This is the part of C01 that can depend on a schedule, history or fault; the comparison with the analytic solution over all inputs is outside this family and not examined.",
+        note="Decides only history / interleaving / crash / ambient-state independence of the linear steppers (a necessary condition of C01). Trusted: JAX, XLA:CPU, equinox, CPython; jit-compiled calls are scheduling-atomic; fixed closed-form input states (no input search).",
+    ),
+    "C06": dict(
+        text="Seeded exploration (deterministic simulation) over the program forms C06 names -- eager, filter_jit, vmap over states, rollout (scan), filter_vmap over constructor parameters, steppers constructed inside a jit-compiled rollout, RepeatedStepper, one stepper object shared by concurrent callers -- for all stepper classes: in every simulated history/interleaving/fault plan each program must return what the same program returns alone in a fresh interpreter (to rounding), so that 'compiling or mapping gives the same numbers' cannot depend on what was compiled, traced or constructed before or concurrently. The cross-form numerical comparison (jit vs eager etc.) over all inputs is outside this family and not examined.",
+        note="Decides order-of-compilation / trace-leak / cross-caller isolation of the program forms (a necessary condition of C06), not the equality between forms. Quick tier samples 28 of ~100 configurations per VERIF_SEED; thorough uses all. Trusted: JAX, XLA:CPU, equinox.",
+    ),
+    "C14": dict(
+        text="Seeded exploration (deterministic simulation) of rollout, repeat (with and without per-step auxiliary inputs), stack_sub_trajectories, RepeatedStepper, ForcedStepper and build_ic_set: under simulated caller threads, histories and faults every call must return what it returns alone (to rounding), i.e. the utilities and wrappers hold no state between or across calls -- the part of 'equal the naive loop' that a history, a concurrent caller or an abandoned call could break. Equality with the naive loop over all n / flag combinations is outside this family and not examined.",
+        note="Decides statelessness / re-entrancy of the trajectory utilities and wrapper steppers (a necessary condition of C14). Trusted: JAX, XLA:CPU, equinox.",
+    ),
+    "C18": dict(
+        text="Seeded exploration (deterministic simulation) of every public IC generator and wrapper (two keys, 1-3 dimensions, pairs of configurations that differ in one option only): decides the clause 'is a deterministic function of the key' in the strong sense -- the array returned for (options, N, key) is the same to rounding whatever ran before, whatever other caller thread interleaves at source-line granularity inside exponax, whatever draw was abandoned by an injected crash and retried, and whatever clocks, global RNGs, caches, gc and the precision session did. The statistical and shape clauses of C18 (zero mean, unit std, offsets, band limits, ...) are functions of the input and are not examined by this family.",
+        note="Decides the determinism clause of C18 only. Trusted: JAX's PRNG, XLA:CPU, equinox. A hidden entropy/clock source is additionally attributed by the seam traps (evidence: ambient_seam_hits_from_package_code).",
+    ),
+    "C19": dict(
+        text="Seeded exploration (deterministic simulation) with the precision session as simulated ambient state: jax_enable_x64 is switched at operation boundaries ('float64 once x64 is enabled'), among the other faults, while coefficients are constructed and steps taken (construct, eager, construct-inside-jit, grad forms of every stepper class; the ETDRK integrators directly). Every operation builds its objects after the switch and must return exactly the dtype and, to rounding of that dtype, the values of the same operation in a fresh session of that precision -- so nothing computed in an earlier session may leak into a later one ('never silently fall back to another precision'). Finiteness at extreme stiffness and the single-vs-double agreement bound are input-quantified and not examined.",
+        note="Decides session-faithfulness of dtype and precision across switches and histories (a necessary condition of C19). Trusted: JAX's handling of jax_enable_x64 (jit caches are keyed on it), XLA:CPU.",
+    ),
+}
+
+
 def main():
     ids = [json.loads(l)["id"] for l in open(os.path.join(HERE, "properties.jsonl")) if l.strip()]
     assert sorted(ids) == sorted(NA), (ids, sorted(NA))
+    checks = []
+    for pid in ids:
+        if pid not in CLAIMED:
+            continue
+        c = CLAIMED[pid]
+        checks.append(
+            {
+                "property_id": pid,
+                "quick_cmd": f"/venv/bin/python checks/run.py --property {pid} --tier quick",
+                "thorough_cmd": f"/venv/bin/python checks/run.py --property {pid} --tier thorough",
+                "evidence_file": f"/verif/evidence/{pid}.json",
+                "replay_cmd_template": f"/venv/bin/python checks/run.py --property {pid} --replay {{path}}",
+                "engine": "exponax-dst",
+                "level_claimed": {"category": "exploration", "text": c["text"], "design_ref": "DESIGN.md §4, §6"},
+                "level_note": c["note"],
+                "technique": "deterministic simulation with fault injection: seeded baton-passing scheduler over real caller threads with source-line pre-emption, seeded API histories, ambient fault injection and injected crashes; oracle = isolated fresh-interpreter reference",
+            }
+        )
     manifest = {
         "version": 1,
         "setup_cmd": "cd /verif && /venv/bin/python -c \"import exponax, hypothesis; assert exponax.__file__.startswith('/repo/'), exponax.__file__; print('setup ok', exponax.__file__)\"",
         "hooks": {
             "guard": "EXPONAX_VERIF",
-            "enable": "none: the guard name is reserved but unused; no hook was added to /repo because no property has a schedule/clock/fault seam (DESIGN.md §0, §3)",
+            "enable": "none needed: the guard name is reserved but unused. All seams are taken from outside the repository (sys.monitoring LINE events on exponax code objects, monkeypatched time/random/os/... entry points, PYTHONPATH pointing at /repo); no hook was added to /repo",
             "baseline_off_cmd": BASELINE_OFF,
             "source_commits": [],
             "add_only": True,
         },
         "engines": [
             {
+                "name": "exponax-dst",
+                "path": "audit/engine.py",
+                "serves_properties": sorted(CLAIMED),
+                "kind_free_text": "Deterministic simulator (audit/sim.py: seeded baton-passing scheduler over real caller threads, sys.monitoring line-level pre-emption inside exponax, ambient fault injection, injected crashes with retry), ambient seam traps (audit/seams.py), operation catalogue enumerated from __all__ (audit/workload.py), isolated fresh-interpreter references, ddmin minimiser and replay files (audit/engine.py); checks/run.py selects the operations a property is anchored in.",
+            },
+            {
                 "name": "premise-audit",
                 "path": "audit/premise_audit.py",
                 "serves_properties": [],
-                "kind_free_text": (
-                    "NOT a property check. Re-establishes, against /repo's current working tree, the premise on which "
-                    "every not_applicable verdict rests: exponax has no schedule/clock/I-O/entropy/shared-state surface. "
-                    "Three legs: static AST audit; dynamic seam traps around a workload enumerated from __all__; "
-                    "deterministic-simulation replay (seeded op order, seeded baton-passed caller-thread interleavings, "
-                    "perturbed ambient state) with bitwise digest comparison against an isolated reference. "
-                    "Prints PREMISE-HOLDS (exit 0) or PREMISE-CHANGED <what> (exit 3); never prints VIOLATION."
-                ),
-            }
+                "kind_free_text": "NOT a property check. Runs the same engine over the whole public API with a bitwise oracle, plus a static AST audit and seam-hit attribution, to re-establish on the current tree the premise behind every not_applicable verdict (no schedule/clock/I-O/entropy/shared-state surface). Prints PREMISE-HOLDS (exit 0) or PREMISE-CHANGED <what> (exit 3); never prints VIOLATION.",
+            },
         ],
-        "checks": [],
-        "not_applicable": [{"property_id": i, "reason": NA[i]} for i in ids],
+        "checks": checks,
+        "not_applicable": [{"property_id": i, "reason": NA[i]} for i in ids if i not in CLAIMED],
         "notes": (
-            "Technique family fixed by the brief: deterministic simulation with fault injection. All 20 properties are "
-            "pure functions of explicit arguments in a library with no threads, clocks, I/O, callbacks, caches or hidden "
-            "entropy (DESIGN.md §2-§4), so no property is claimed. audit/premise_audit.py re-checks that premise on the "
-            "current tree; DESIGN.md §7 lists the repository changes that would make individual properties decidable by "
-            "this family."
+            "Technique family fixed by the brief: deterministic simulation with fault injection. exponax is a library of pure functions "
+            "(DESIGN.md §2), so the family can decide, for any property, only its history / interleaving / crash / ambient-state "
+            "independence. That corollary is claimed for the five properties whose wording is about calls, programs, sessions or histories "
+            "(C01, C06, C14, C18, C19) and for which independently seeded changes needed exactly such a schedule or fault to manifest "
+            "(DESIGN.md §10); the other fifteen are not_applicable. audit/premise_audit.py re-checks the premise on the whole API."
         ),
     }
     with open(os.path.join(HERE, "MANIFEST.json"), "w") as f:
         json.dump(manifest, f, indent=1)
         f.write("\n")
-    print("wrote MANIFEST.json with", len(manifest["checks"]), "checks and", len(ids), "not_applicable")
+    print("wrote MANIFEST.json with", len(manifest["checks"]), "checks and", len(manifest["not_applicable"]), "not_applicable")
 
 
 if __name__ == "__main__":
